@@ -3,6 +3,7 @@
 payload: {'libs': [lib, ...]};  lib = {'cfg': {cls, mol, d, r, cap, yinv, yover}, 'reads': [readspec, ...],
                                         'retag': bool, 'bam': bool}
 readspec = {name, sample, umi, contig, r1: {start, rev, seq, cigar} | None, r2: {...} | None, dup, qcfail, rc, mx}
+cfg may carry 'eject' (check_eject_every, default None) and 'cache' (Molecule cache_size) for the truth stream
 result per lib: {'frags': [abstraction of every offered fragment, arrival order], 'pass1': [molecule, ...],
                  'pass2': [...] | None, 'bam': {...} | None}  or {'error': 'Type: msg'}
 The abstraction read -> abstract fragment uses the implementation's own accessors (sample, strand,
@@ -124,9 +125,11 @@ def run_pass(pairs, cfg, keep=None):
     margs = {}
     if cfg.get('cap') is not None:
         margs['max_associated_fragments'] = cfg['cap']
+    if cfg.get('cache') is not None:
+        margs['cache_size'] = cfg['cache']
     dups = [any(r.is_duplicate for r in p if r is not None) for p in pairs]
     it = MoleculeIterator(pairs, molecule_class=mcls, fragment_class=recording(fcls, registry),
-                          check_eject_every=None, perform_qflag=False, pooling_method=1,
+                          check_eject_every=cfg.get('eject'), perform_qflag=False, pooling_method=1,
                           yield_invalid=cfg['yinv'], yield_overflow=cfg['yover'],
                           fragment_class_args=fargs, molecule_class_args=margs)
     molecules = list(it)
